@@ -645,6 +645,9 @@ def replay_h_ed(detail):
             out = ssj.edit_distance_join(L, R, 'id', 'id', 'attr', 'attr', tau, op, cs['allow_missing'], None, None,
                                          'l_', 'r_', cs['out_sim_score'], cs['n_jobs'], False, tok)
             lines.append('result:\n%s' % out.to_string())
+            if [int(x) for x in out['_id']] != list(range(len(out))):
+                lines.append('_id column is %r, expected 0..%d' % (list(out['_id']), len(out) - 1))
+                bad = True
             seen = {}
             for row in out.itertuples(index=False, name=None):
                 pk = (int(row[1]), int(row[2]))
@@ -747,6 +750,11 @@ def replay_h_laws(detail):
     repo.load()
     law = detail['law']
     s, s2 = detail['scenario'], detail['scenario2']
+    if detail.get('order') == 'identity' and law == 'transpose':
+        # realise the arbitrary global order by filler rows (same fillers in both orientations:
+        # they are appended to the right table of the first orientation = left table of the second)
+        s = add_order_fillers(s)
+        s2 = dict(s2, L=s['R'], R=s['L'])
     lines, bad = ['law: %s, entry %s' % (law, s['entry'])], False
     lkeys = [r[s['L']['columns'].index('id')] for r in s['L']['rows']]
     rkeys = [r[s['R']['columns'].index('id')] for r in s['R']['rows']]
